@@ -9,9 +9,8 @@
 #include <covfie/core/backend/transformer/strided.hpp>
 #include <covfie/core/field.hpp>
 #include <covfie/core/field_view.hpp>
-#if defined(SH_MORTON)
+#include <covfie/core/backend/primitive/array.hpp>
 #include <covfie/core/backend/transformer/morton.hpp>
-#endif
 #if defined(SH_HILBERT)
 #include <covfie/core/backend/transformer/hilbert.hpp>
 #endif
@@ -39,6 +38,75 @@ static unsigned nonzero(const uint64_t * c)
 
 // ------------------------------------------------------------------ row-major
 #if defined(SH_ROWMAJOR)
+// a row-major field produced by the library's own re-layout copy must hold coordinate c at the
+// published flat position too (observed in the raw array beneath the layer)
+template <std::size_t N>
+static void converted_rowmajor(uint64_t B)
+{
+    using idx_d = cv::vector_d<std::size_t, N>;
+    using src_t = covfie::field<cb::morton<idx_d, cb::array<cv::float1>, false>>;
+    using dst_t = covfie::field<cb::strided<idx_d, cb::array<cv::float1>>>;
+    std::string name = "strided<size_t," + std::to_string(N) + ">:converted-from-morton";
+    if (!vh::selected(name)) return;
+    uint64_t ext[N], c[N];
+    for (std::size_t k = 0; k < N; ++k) ext[k] = 1;
+    for (;;) {
+        covfie::utility::nd_size<N> sizes;
+        uint64_t mx = 1, len = 1, cells = 1;
+        for (std::size_t k = 0; k < N; ++k) {
+            sizes[k] = ext[k];
+            mx = ext[k] > mx ? ext[k] : mx;
+            cells *= ext[k];
+        }
+        uint64_t side = 1;
+        while (side < mx) side *= 2;
+        for (std::size_t k = 0; k < N; ++k) len *= side;
+        vh::set_case("%s extents=%s", name.c_str(), vh::jarr(ext, N).c_str());
+        src_t src(covfie::make_parameter_pack(typename src_t::backend_t::configuration_t(sizes), covfie::utility::nd_size<1>{len}));
+        {
+            typename src_t::view_t sv(src);
+            for (std::size_t k = 0; k < N; ++k) c[k] = 0;
+            for (;;) {
+                typename src_t::coordinate_t cc;
+                uint64_t id = 0;
+                for (std::size_t k = 0; k < N; ++k) {
+                    cc[k] = c[k];
+                    id = id * 64 + c[k];
+                }
+                sv.at(cc)[0] = (float)(id + 1);
+                std::size_t k = 0;
+                while (k < N && ++c[k] >= ext[k]) c[k++] = 0;
+                if (k == N) break;
+            }
+        }
+        dst_t dst(src);
+        typename cb::array<cv::float1>::non_owning_data_t raw(dst.backend().get_backend());
+        bool alleq = true;
+        for (std::size_t k = 1; k < N; ++k) alleq = alleq && ext[k] == ext[0];
+        for (std::size_t k = 0; k < N; ++k) c[k] = 0;
+        for (;;) {
+            uint64_t id = 0;
+            for (std::size_t k = 0; k < N; ++k) id = id * 64 + c[k];
+            uint64_t pos = (uint64_t)ref::rowmajor(c, ext, N);
+            vh::ev();
+            if (!alleq && nonzero<N>(c) >= 2) vh::nontrivial_enumerated();
+            if (pos >= cells || raw.at(pos)[0] != (float)(id + 1)) {
+                vh::viol(name, "extents=" + vh::jarr(ext, N) + " c=" + vh::jarr(c, N) + ": flat position " + std::to_string(pos) + " of the converted field does not hold the value of that coordinate");
+                break;
+            }
+            std::size_t k = 0;
+            while (k < N && ++c[k] >= ext[k]) c[k++] = 0;
+            if (k == N) break;
+        }
+        std::size_t k = 0;
+        while (k < N && ++ext[k] > B) {
+            ext[k] = 1;
+            ++k;
+        }
+        if (k == N) break;
+    }
+}
+
 template <typename I, std::size_t N>
 struct RowMajor {
     using backend_t = cb::strided<cv::vector_d<I, N>, pos_backend>;
@@ -310,6 +378,9 @@ int main(int argc, char ** argv)
         const uint64_t Bq[5] = {0, 64, 12, 6, 4}, Bt[5] = {0, 256, 24, 10, 6};
         const uint64_t * B = th ? Bt : Bq;
         unsigned nr = th ? 20000 : 3000;
+        converted_rowmajor<2>(B[2]);
+        converted_rowmajor<3>(B[3]);
+        converted_rowmajor<4>(B[4]);
         RowMajor<std::size_t, 1>::run(B[1], rng, nr);
         RowMajor<std::size_t, 2>::run(B[2], rng, nr);
         RowMajor<std::size_t, 3>::run(B[3], rng, nr);
